@@ -795,6 +795,11 @@ func parent(c *Check, tier string) int {
 	if level == "" {
 		level = "exploration"
 	}
+	switch level {
+	case "exploration", "fault_enumeration", "model_checking", "proof", "translation_validation", "other":
+	default:
+		level = "exploration"
+	}
 	distinct := int64(len(a.Keys)) + a.Distinct
 	outs := map[string]int64{}
 	{
@@ -834,7 +839,7 @@ func parent(c *Check, tier string) int {
 		cov["capped_cases"] = a.Capped
 		cov["cap"] = fmt.Sprintf("deadline %v", deadline)
 	}
-	if a.States > 0 || level == "model_checking" {
+	if a.States > 0 && a.Transitions > 0 {
 		cov["states"] = a.States
 		cov["transitions"] = a.Transitions
 		cov["traces_validated_against_impl"] = a.Evals
